@@ -13,6 +13,8 @@ import (
 	"google.golang.org/grpc"
 	"google.golang.org/grpc/metadata"
 
+	"github.com/projecteru2/core/verifrt"
+
 	"verif/sim/simrt"
 )
 
@@ -20,18 +22,25 @@ import (
 type Handle struct {
 	S    *Server
 	Inst *simrt.Instance
+	// Class is the seam class of this handle's calls ("etcd", "pstore", ...).
+	Class string
 	// ParkKeepAlive makes keep-alive stream traffic a scheduler step (default true).
 	ParkKeepAlive bool
-	// FaultLease makes lease RPCs faultable (default true).
+	// FaultKeepAlive makes keep-alive stream sends faultable (default false: faults are
+	// kept inside operations; a lost keep-alive is modelled by stalls / pauses instead).
+	FaultKeepAlive bool
 	Client *clientv3.Client
 	cancel context.CancelFunc
 }
 
 // NewClient returns a real *clientv3.Client whose KV and Lease run the real client
 // code over this server, and whose Watcher is served directly by the model.
-func (s *Server) NewClient(inst *simrt.Instance) *Handle {
+func (s *Server) NewClient(inst *simrt.Instance, class ...string) *Handle {
 	ctx, cancel := context.WithCancel(context.Background())
-	h := &Handle{S: s, Inst: inst, ParkKeepAlive: true, cancel: cancel}
+	h := &Handle{S: s, Inst: inst, ParkKeepAlive: true, cancel: cancel, Class: s.Name}
+	if len(class) > 0 {
+		h.Class = class[0]
+	}
 	c := clientv3.NewCtxClient(ctx)
 	c.KV = clientv3.NewKVFromKVClient(&kvClient{h}, c)
 	c.Lease = clientv3.NewLeaseFromLeaseClient(&leaseClient{h}, c, 5*time.Second)
@@ -50,7 +59,10 @@ func (h *Handle) seam(ctx context.Context, label string, faultable bool) error {
 	if err := ctx.Err(); err != nil {
 		return err
 	}
-	if err := h.S.Sim.Seam(h.Inst, h.S.Name, label, faultable); err != nil {
+	if faultable && verifrt.IsRollback(ctx) {
+		faultable = false // compensating steps are never failed by injection
+	}
+	if err := h.S.Sim.Seam(h.Inst, h.Class, label, faultable); err != nil {
 		return injected(err)
 	}
 	return ctx.Err()
@@ -262,7 +274,7 @@ func (c *leaseClient) LeaseKeepAlive(ctx context.Context, _ ...grpc.CallOption) 
 
 func (k *kaStream) Send(r *pb.LeaseKeepAliveRequest) error {
 	if k.h.ParkKeepAlive {
-		if err := k.h.seam(k.ctx, "LeaseKeepAlive", true); err != nil {
+		if err := k.h.seam(k.ctx, "LeaseKeepAlive", k.h.FaultKeepAlive); err != nil {
 			return err
 		}
 	} else if err := k.ctx.Err(); err != nil {
@@ -355,7 +367,7 @@ func (s *Server) notify() {
 func (wa *watcher) run(clientCtx context.Context) {
 	defer close(wa.out)
 	s := wa.h.S
-	if err := s.Sim.Seam(wa.h.Inst, s.Name, "WatchCreate "+short(wa.key), false); err != nil {
+	if err := s.Sim.Seam(wa.h.Inst, wa.h.Class, "WatchCreate "+short(wa.key), false); err != nil {
 		return
 	}
 	if wa.ctx.Err() != nil || clientCtx.Err() != nil {
@@ -405,7 +417,7 @@ func (wa *watcher) run(clientCtx context.Context) {
 				return
 			}
 		}
-		if err := s.Sim.Seam(wa.h.Inst, s.Name, "WatchDeliver "+short(wa.key), false); err != nil {
+		if err := s.Sim.Seam(wa.h.Inst, wa.h.Class, "WatchDeliver "+short(wa.key), false); err != nil {
 			return
 		}
 		wa.next = brev + 1
